@@ -1,8 +1,8 @@
 #!/bin/bash
 # tools/soak.sh "<props>" <first seed> <last seed> : run quick checks over a range of VERIF_SEEDs (no determinism leg)
 for s in $(seq $2 $3); do for p in $1; do
-  out=$(VERIF_SEED=$s VERIF_NO_DET=1 ./check $p --tier quick 2>&1); rc=$?
+  out=$(VERIF_EVIDENCE_DIR=/dev/shm/soak_ev VERIF_SEED=$s VERIF_NO_DET=1 ./check $p --tier quick 2>&1); rc=$?
   echo "seed=$s $p rc=$rc $(echo "$out" | tail -1 | cut -c1-150)"
   if [ $rc -ne 0 ]; then echo "$out" | grep -E "VIOLATION|signature|HARNESS" | cut -c1-400; fi
 done; done
-git checkout -- evidence 2>/dev/null
+rm -rf /dev/shm/soak_ev
